@@ -8,9 +8,7 @@ from functools import partial
 from typing import TYPE_CHECKING
 
 # Third Party Imports
-from numpy import array
-from numpy import max as np_max
-from numpy import ones_like, spacing, zeros
+from numpy import asarray, ones_like, spacing, zeros
 from scipy.integrate import solve_ivp
 
 # Local Imports
@@ -292,8 +290,9 @@ class Celestial(Dynamics, metaclass=ABCMeta):
                 raise ValueError(solution.message)
 
             # Pull out solved states at each `times`
+            # (`solve_ivp` returns empty lists if an event occurred before any of the `times` was reached)
             n_t = len(solution.t)
-            states = solution.y
+            states = asarray(solution.y)
 
             # Integration completed, check if event occurred between last two `times`
             if solution.status == 0 and len(times) == 0:
@@ -304,23 +303,25 @@ class Celestial(Dynamics, metaclass=ABCMeta):
             states = states.reshape((*state_shape, n_t)).copy()
 
             # Retrieve time when integration stopped, should auto-exit the loop if fully-integrated
-            if array(solution.t_events).size == 0:
+            fired = [idx for idx, t_event in enumerate(solution.t_events) if t_event.size > 0]
+            if not fired:
                 current_time = solution.t[-1]
                 # print(states.shape, states[...,-1].shape, states[::,-1].shape)
                 current_state = states[..., -1]  # .reshape(state_shape)
             else:
-                # Retrieve the current state & update the initial state for next loop
-                current_time = np_max(solution.t_events)
+                # Retrieve the current state & update the initial state for next loop. Every event is
+                # terminal, so the integration stopped on the latest root that was recorded
+                last = max(fired, key=lambda idx: solution.t_events[idx][-1])
+                current_time = solution.t_events[last][-1]
                 current_state = self._applyEvents(
                     t_events=solution.t_events,
                     events=events,
-                    # [TODO]: Make this more robust. What about multiple events?
-                    current_state=solution.y_events[0].reshape(state_shape),
+                    current_state=solution.y_events[last][-1].reshape(state_shape),
                 )
 
                 # Properly copies updated state back into full state vector for when
-                # an event occurs on a `times`
-                if current_time == solution.t[-1]:
+                # an event occurs on a `times` (no `times` may have been reached since the last event)
+                if n_t > 0 and current_time == solution.t[-1]:
                     states[..., -1] = current_state.copy()
 
             # [TODO]: This may not be needed?
